@@ -820,6 +820,9 @@ func (f *fragment) unprotectedSetRow(row *Row, rowID uint64) (changed bool, err 
 		}
 	}
 
+	// Invalidate block checksum.
+	delete(f.checksums, int(rowID/HashBlockSize))
+
 	// Update the row in cache.
 	if f.CacheType != CacheTypeNone {
 		n := f.storage.CountRange(rowID*ShardWidth, (rowID+1)*ShardWidth)
@@ -871,6 +874,9 @@ func (f *fragment) unprotectedClearRow(rowID uint64) (changed bool, err error) {
 			}
 		}
 	}
+
+	// Invalidate block checksum.
+	delete(f.checksums, int(rowID/HashBlockSize))
 
 	// Clear the row in cache.
 	f.cache.Add(rowID, 0)
@@ -2230,6 +2236,10 @@ func (f *fragment) importValue(columnIDs []uint64, values []int64, bitDepth uint
 	// The bits were written straight to storage, so rows handed out earlier
 	// by the row cache no longer match it.
 	f.rowCache = &simpleCache{make(map[uint64]*Row)}
+	// Likewise for the checksums of the blocks holding the value rows.
+	for i := uint(0); i < bitDepth+bsiOffsetBit; i++ {
+		delete(f.checksums, int(uint64(i)/HashBlockSize))
+	}
 
 	// We don't actually care, except we want our stats to be accurate.
 	f.incrementOpN(totalChanges)
@@ -2268,6 +2278,8 @@ func (f *fragment) importRoaring(ctx context.Context, data []byte, clear bool) e
 		if changes == 0 {
 			continue
 		}
+		// Invalidate block checksum.
+		delete(f.checksums, int(rowID/HashBlockSize))
 		f.rowCache.Add(rowID, nil)
 		if updateCache {
 			anyChanged = true
